@@ -230,8 +230,39 @@ def _siblings(ctx: Ctx, item):
     ctx.klass("sibling_pairs")
 
 
+def _shared_values(ctx: Ctx, item):
+    """The same numeric value in different fields of one quantity, decoded in one process (fields whose database unit differs, e.g.
+    the ANGLE fields stored in degrees, included): a conversion must depend on the field, not on what was converted before."""
+    quantity, = item
+    db = canboat.db()
+    fields = [(d, f) for d in db.defs if d.supported and d.fixed_layout for f in d.fields if f.pq == quantity and f.match is None and f.type == "NUMBER"]
+    # unusual units first, then the rest, then the reverse
+    fields.sort(key=lambda df: (df[1].unit in ("rad", "K", "Pa", "m/s"), df[0].index))
+    ck = Checker(ctx)
+    for values in ([Fraction(1, 2), Fraction(3, 2), Fraction(5, 2), Fraction(3), Fraction(280), Fraction(1, 10), Fraction(100000)],):
+        for order in (fields, list(reversed(fields))):
+            for v in values:
+                for d, f in order:
+                    off = f.offset or 0
+                    r = (v - off) / f.res
+                    b = gen.raw_bounds(f)
+                    if r.denominator != 1 or not b or not (b[0] <= r <= b[1]):
+                        continue
+                    bp, bn, _ = gen.benign_payload(d)
+                    m = ((1 << f.bits) - 1) << f.offset_bits
+                    payload = (bp & ~m) | ((int(r) & ((1 << f.bits) - 1)) << f.offset_bits)
+                    for prefs in FULL[:1]:
+                        ctx.count()
+                        ctx.nt((quantity, d.key, f.id, str(v)))
+                        res, _ = ck.check(d, payload, bn, prefs)
+                        for bk, w, c in res:
+                            ctx.report(bk + "|shared-value", w, c)
+    ctx.klass("shared_value_fields", len(fields))
+
+
 def run(ctx: Ctx):
     db = canboat.db()
+    pmap(ctx, _shared_values, [(q,) for q in RECOGNISED])
     multi = [pgn for pgn, ds in db.by_pgn.items() if len(ds) > 1 and any(f.pq in RECOGNISED for d in ds for f in d.fields)]
     pmap(ctx, _siblings, [([p],) for p in multi])
     keys = [d.key for d in db.defs if d.supported and any(f.pq for f in d.fields)]
